@@ -500,6 +500,8 @@ func outside(t reflect.Type, s *jsonschema.Schema, marks map[reflect.Type]string
 			}
 		}
 		walkEmb(t)
+		insideNames := map[string][]int{}
+		outsideNames := map[string]bool{}
 		for _, f := range gen.JSONFields(t) {
 			// does the field come from inside an overridden embedded type?
 			inside := false
@@ -516,8 +518,10 @@ func outside(t reflect.Type, s *jsonschema.Schema, marks map[reflect.Type]string
 				cur = ft
 			}
 			if inside {
+				insideNames[f.Name] = f.Index
 				continue
 			}
+			outsideNames[f.Name] = true
 			ps, ok := s.Properties[f.Name]
 			if !ok {
 				report(path, fmt.Sprintf("type %s: field %q (index %v) is emitted by encoding/json and does not come from an overridden type, but is not a property (properties: %v)", t, f.Name, f.Index, keysOf(s.Properties)))
@@ -525,6 +529,46 @@ func outside(t reflect.Type, s *jsonschema.Schema, marks map[reflect.Type]string
 			}
 			if !f.Embedded {
 				outside(f.Type, ps, marks, path+"/properties/"+f.Name, report, seen)
+			}
+		}
+		// nothing from inside an overridden embedded type may leak: its members are replaced by the
+		// override's properties as a whole, however deep they were promoted from. (A name that some
+		// field outside the overridden types also carries, dominant or not, is not judged.)
+		anyOutside := map[string]bool{}
+		var walkOut func(st reflect.Type, depth int)
+		walkOut = func(st reflect.Type, depth int) {
+			if depth > 6 {
+				return
+			}
+			for i := 0; i < st.NumField(); i++ {
+				sf := st.Field(i)
+				ft := sf.Type
+				for ft.Kind() == reflect.Pointer {
+					ft = ft.Elem()
+				}
+				if sf.Anonymous && ft.Kind() == reflect.Struct && sf.Tag.Get("json") == "" {
+					if _, ok := marks[ft]; !ok {
+						walkOut(ft, depth+1)
+					}
+					continue
+				}
+				anyOutside[sf.Name] = true
+				if n, _, _ := strings.Cut(sf.Tag.Get("json"), ","); n != "" {
+					anyOutside[n] = true
+				}
+			}
+		}
+		walkOut(t, 0)
+		for _, p := range keysOf(s.Properties) {
+			ix, in := insideNames[p]
+			if !in || outsideNames[p] || anyOutside[p] || strings.HasPrefix(p, "zz_") || strings.HasPrefix(p, "aa_") {
+				continue
+			}
+			report(path, fmt.Sprintf("type %s: property %q comes from field index %v inside an embedded type that TypeSchemas overrides; the override replaces those members (properties: %v)", t, p, ix, keysOf(s.Properties)))
+		}
+		for _, p := range s.Required {
+			if _, in := insideNames[p]; in && !outsideNames[p] && !anyOutside[p] {
+				report(path, fmt.Sprintf("type %s: required lists %q, a field inside an embedded type that TypeSchemas overrides", t, p))
 			}
 		}
 	}
